@@ -16,6 +16,7 @@ HARNESS = os.path.join(ROOT, "harness")
 TMP = os.path.join(ROOT, "tmp")
 MODELDRV = os.path.join(LEAN, ".lake", "build", "bin", "modeldrv")
 HBIN = os.path.join(HARNESS, "target", "release", "verif-harness")
+HBIN_PLAIN = os.path.join(HARNESS, "target-plain", "release", "verif-harness")   # built without serde-saphyr's `robotics` feature
 ALLOWED_AXIOMS = {"propext", "Classical.choice", "Quot.sound"}
 FORBIDDEN = re.compile(r"\bsorry\b|\badmit\b|^\s*axiom\s|native_decide|bv_decide|implemented_by|\bunsafe\s|maxHeartbeats\s+0")
 
@@ -271,14 +272,23 @@ class Run:
         self.say(f"[cargo] build harness rc={rc} ({dt:.1f}s)")
         if rc != 0:
             self.say(out[-4000:])
+        if rc == 0 and self.cfg.get("harness_plain"):
+            # second binary: serde-saphyr with its DEFAULT feature set + hooks (no `robotics`): code under
+            # cfg(not(feature = "robotics")) is compiled only here
+            with Lock("cargo"):
+                rc, out, dt = sh(["cargo", "build", "--release", "--offline", "--no-default-features",
+                                  "--target-dir", os.path.join(HARNESS, "target-plain")], cwd=HARNESS, timeout=3600)
+            self.say(f"[cargo] build harness (plain feature set) rc={rc} ({dt:.1f}s)")
+            if rc != 0:
+                self.say(out[-4000:])
         return rc, out
 
-    def harness_run(self, area, mode, extra=(), timeout=3600):
-        outdir = os.path.join(TMP, f"{self.pid}_{self.tier}")
+    def harness_run(self, area, mode, extra=(), timeout=3600, plain=False):
+        outdir = os.path.join(TMP, f"{self.pid}_{self.tier}" + ("_plain" if plain else ""))
         os.makedirs(outdir, exist_ok=True)
-        cmd = [HBIN, area, mode, "--seed", str(self.seed), "--tier", self.tier, "--out", outdir, *extra]
+        cmd = [HBIN_PLAIN if plain else HBIN, area, mode, "--seed", str(self.seed), "--tier", self.tier, "--out", outdir, *extra]
         rc, out, dt = sh(cmd, timeout=timeout)
-        self.say(f"[harness] {area} {mode} rc={rc} ({dt:.1f}s)")
+        self.say(f"[harness] {area} {mode}{' (plain feature set)' if plain else ''} rc={rc} ({dt:.1f}s)")
         if out.strip():
             self.say(out[-2000:])
         return rc, out, outdir
